@@ -268,3 +268,52 @@ class SignedSpendBounded:
 
     def post_accepts_iff_honest(result):
         return result[0] is result[1]
+
+
+# ---- signature-free tapscripts ---------------------------------------------------------------
+def tapscript_verdict(script, inputs, flags):
+    """spend `script` as the single leaf of a taproot output, through the script path"""
+    internal = _C.mul(7, _C.G)[0].to_bytes(32, "big")
+    lh = taproot_ref.leaf_hash(0xC0, script)
+    parity, q = taproot_ref.tweak_pubkey(internal, lh)
+    return engine_verdict(b"", b"\x51\x20" + q, list(inputs) + [script, bytes([0xC0 | parity]) + internal], flags)
+
+
+_TAP_FLAGS = [("P2SH", "WITNESS", "TAPROOT"), ("P2SH", "WITNESS", "TAPROOT", "MINIMALDATA"), ("P2SH", "WITNESS", "TAPROOT", "DISCOURAGE_OP_SUCCESS"),
+              ("P2SH", "WITNESS", "TAPROOT", "MINIMALIF", "CLEANSTACK")]
+
+
+def _gen_tapscript(rng):
+    c = rng.random()
+    if c < 0.55:
+        s = _program(rng)
+    elif c < 0.7:
+        # a byte of every class in a branch that is not taken, or ahead of an OP_SUCCESSx
+        b = bytes([rng.choice([0xFF, 0xFF, 0x50, 0x62, 0x65, 0x66, 0x7E, 0x89, 0x8A, 0xBA, 0xBB, 0xFE, 0xAE, 0xAF, 0xB0, 0xB9, 0xAB])])
+        s = rng.choice([b"\x00\x63" + b + b"\x68\x51", b"\x51\x63\x51\x67" + b + b"\x68", b + b"\x50", b + b"\x51", b"\x51" + b, b"\x51\x63" + b + b"\x68\x51"])
+    elif c < 0.8:
+        # OP_SUCCESS and what may surround it: truncated pushes before and after, oversized pushes
+        succ = bytes([rng.choice([0x50, 0x62, 0x7E, 0x8D, 0xBB, 0xFE])])
+        s = rng.choice([succ + b"\x05\x01", b"\x05\x01" + succ, push(bytes(521)) + succ, succ + push(bytes(521)), b"\x4c" + succ, b"\x6a" + succ, b"\x00\x63" + succ + b"\x68\x51"])
+    elif c < 0.9:
+        # tapscript has no op-count and no script-size limit; the stack limit stays
+        s = rng.choice([b"\x61" * rng.choice([201, 202, 500]) + b"\x51", (push(bytes(500)) + b"\x75") * 21 + b"\x51", b"\x51" * rng.choice([999, 1000, 1001]) + b"\x6d" * 499 + b"\x75" * rng.choice([0, 1, 2])])
+    else:
+        # MINIMALIF is consensus here
+        cond = rng.choice([b"\x02", b"\x01\x00", b"\x80", b"\x00"])
+        s = b"\x01" + cond[:1] + rng.choice([b"\x63", b"\x64"]) + b"\x51\x67\x51\x68" if len(cond) == 1 else push(cond) + b"\x63\x51\x67\x51\x68"
+    inputs = [rng.choice([b"", b"\x01", b"\x02", bytes(rng.randrange(0, 4))]) for _ in range(rng.choice([0, 0, 1, 2]))]
+    if rng.random() < 0.08:
+        inputs.append(bytes(rng.choice([520, 521])))
+    return dict(script=s, inputs=inputs, flags=rng.choice(_TAP_FLAGS))
+
+
+@contract("contracts.c_engine.tapscript_verdict", gen=_gen_tapscript, props="C08 C19", n_quick=1200, n_thorough=40000,
+          rule="signature-free tapscripts spent through the script path: the programs of EngineVerdictBounded, every class of byte (0xff, reserved, OP_VERIF, legacy-disabled = OP_SUCCESS, CHECKMULTISIG, upgradable NOPs, CHECKSIGADD on an empty stack) in a branch not taken / ahead of an OP_SUCCESSx / executed, OP_SUCCESS next to truncated and oversized pushes, 201..500 executed ops, 10 kB scripts, 999..1001 stack elements, non-minimal conditions; four flag sets")
+class TapscriptVerdictBounded:
+    """accepts exactly when Core's tapscript execution (OP_SUCCESS pre-scan, initial stack
+    limits, EvalScript under SigVersion::TAPSCRIPT, exactly one true element left) accepts"""
+
+    def post_core_verdict(script, inputs, flags, result):
+        want = core.verify_tapscript(inputs, script, set(flags))
+        return want is None or result is want
